@@ -649,7 +649,22 @@ class CFG:
         if self._stores is None:
             self._assigned_in_function(ast.Constant(value=None))
         attrs = {ast.unparse(x) for x in ast.walk(e) if isinstance(x, ast.Attribute)}
-        return not (attrs & self._stores)
+        if not (attrs & self._stores):
+            return True
+        # a store to one of the attributes only matters when it can run after d and before n (without d running again:
+        # then the name is bound afresh)
+        if d is n:
+            return True
+        for s in self.real_nodes():
+            st = s.stmt
+            if s.kind != 'stmt' or not isinstance(st, (ast.Assign, ast.AugAssign, ast.AnnAssign, ast.Delete)):
+                continue
+            tg = st.targets if isinstance(st, (ast.Assign, ast.Delete)) else [st.target]
+            hit = any(isinstance(x, ast.Attribute) and isinstance(x.ctx, (ast.Store, ast.Del)) and ast.unparse(x) in attrs
+                      for t in tg for x in ast.walk(t))
+            if hit and s is not d and self.path_exists(d, s, avoid=[d]) and self.path_exists(s, n, avoid=[d]):
+                return False
+        return True
 
     def _assigned_in_function(self, e) -> bool:
         """Is any name / attribute chain read by e a store target somewhere in this function?"""
@@ -768,6 +783,92 @@ class CFG:
         starts = [(h, 0) for h in a.esucc] if from_exception else [(a, 1)]
         return (b.id, 0) in self._pp_reach(starts, avoid=avoid, normal_only=normal_only)
 
+    def path_exists_const(self, a: Node, b: Node) -> bool:
+        """Like path_exists(a, b), but branches that test a local whose value is a known constant on the way are followed only
+        along the edge that constant selects.  Known constant: every definition of the local that reaches a binds the same
+        constant (None / bool / number / string) and no node on the way binds it again.  Decides "b cannot follow a" for
+        single-exit code that carries the decision in a result variable (`res = None ... if res is not None: publish`)."""
+        env = {}
+        names = {x.id for n in self.nodes if n.kind == 'branch' and n.test is not None for x in ast.walk(n.test)
+                 if isinstance(x, ast.Name)}
+        for nm in names:
+            if nm in self._params:
+                continue
+            defs = self._rd(nm).get(a.id, set())
+            vals = []
+            for d in defs:
+                v = self.def_value(d, nm) if d.kind == 'stmt' else None
+                if not isinstance(v, ast.Constant):
+                    vals = None
+                    break
+                vals.append(repr(v.value))
+            if vals and len(set(vals)) == 1 and a not in defs:
+                env[nm] = next(self.def_value(d, nm).value for d in defs)
+
+        def binds(n):
+            out = set()
+            st = n.stmt
+            if st is None or n.kind == 'branch':
+                return out
+            tg = []
+            if n.kind == 'stmt' and isinstance(st, ast.Assign):
+                tg = st.targets
+            elif n.kind == 'stmt' and isinstance(st, (ast.AugAssign, ast.AnnAssign)):
+                tg = [st.target]
+            elif n.kind == 'for':
+                tg = [st.target]
+            elif n.kind == 'with':
+                tg = [i.optional_vars for i in st.items if i.optional_vars is not None]
+            for t in tg:
+                for x in ast.walk(t):
+                    if isinstance(x, ast.Name) and isinstance(x.ctx, ast.Store):
+                        out.add(x.id)
+            for x in n.walk():
+                if isinstance(x, ast.NamedExpr) and isinstance(x.target, ast.Name):
+                    out.add(x.target.id)
+            return out
+
+        def outcome(test, known):
+            if isinstance(test, ast.Name) and test.id in known:
+                return bool(known[test.id])
+            if isinstance(test, ast.UnaryOp) and isinstance(test.op, ast.Not):
+                r = outcome(test.operand, known)
+                return None if r is None else not r
+            if isinstance(test, ast.Compare) and len(test.ops) == 1 and isinstance(test.left, ast.Name) and \
+                    test.left.id in known and isinstance(test.comparators[0], ast.Constant):
+                l, r = known[test.left.id], test.comparators[0].value
+                op = test.ops[0]
+                if isinstance(op, ast.Is):
+                    return l is r
+                if isinstance(op, ast.IsNot):
+                    return l is not r
+                if isinstance(op, ast.Eq):
+                    return l == r
+                if isinstance(op, ast.NotEq):
+                    return l != r
+            return None
+        start = (a.id, frozenset(env))
+        seen = {start}
+        todo = [(a, frozenset(env))]
+        first = True
+        while todo:
+            n, known = todo.pop()
+            if not first:
+                known = frozenset(known - binds(n))
+            first = False
+            for s_ in list(n.succ) + list(n.esucc):
+                if s_.kind == 'branch' and s_.label in (True, False) and s_.test is not None:
+                    r = outcome(s_.test, {k: env[k] for k in known})
+                    if r is not None and r != s_.label:
+                        continue
+                if s_ is b:
+                    return True
+                k = (s_.id, known)
+                if k not in seen:
+                    seen.add(k)
+                    todo.append((s_, known))
+        return False
+
     def reaching_defs(self, name: str):
         """node id -> set of nodes whose binding of local `name` may reach the evaluation of that node."""
         def binds(n):
@@ -852,7 +953,9 @@ def _const_truth(e):
 
 
 def _pure_test(e) -> bool:
-    """Comparison / not / and / or over pure chains and constants."""
+    """Comparison / not / and / or over pure chains and constants; a boolean constant (result flag)."""
+    if isinstance(e, ast.Constant) and isinstance(e.value, bool):
+        return True
     if isinstance(e, ast.UnaryOp) and isinstance(e.op, ast.Not):
         return _pure_test(e.operand)
     if isinstance(e, ast.BoolOp):
@@ -983,6 +1086,11 @@ class Facts(list):
             return list.__contains__(self, item)
         return list.__contains__(self, item) or canon_lit(item[0], item[1]) in self._canon()
 
+    def both(self):
+        """every fact as written and with local aliases (incl. named conditions) written out, without duplicates"""
+        out = list(list.__iter__(self))
+        return out + [r for r in self.resolved if r not in out]
+
     def add(self, atom, resolved_atom=None):
         if not list.__contains__(self, atom):
             self.append(atom)
@@ -1071,6 +1179,84 @@ def expand_aliases(fi):
     new.expanded_from = fi
     _expanded_cache[key] = new
     _expanded_cache[id(node)] = new
+    return new
+
+
+def first_else_second(g, n, expr, first, second, sites=None) -> bool:
+    """expr at n is `first` when first is given (truthy / not None) and `second` otherwise - whether written `first or second`,
+    as a conditional expression, as if/else on a local or through a helper that was expanded.
+    sites: [(node, expr), ..] when the value is delivered by several statements (one per branch of an if/else)."""
+    seen = set()
+    for sn, se in (sites if sites is not None else [(n, expr)]):
+        for facts, leaf in g.value_cases(sn, se):
+            txt = ast.unparse(leaf)
+            if txt == first and ((first, True) in facts or (f'{first} is None', False) in facts):
+                seen.add('first')
+            elif txt == second and ((first, False) in facts or (f'{first} is None', True) in facts):
+                seen.add('second')
+            else:
+                return False
+    return seen == {'first', 'second'}
+
+
+_fused_cache: dict = {}
+
+
+def fuse_filters(fi):
+    """A view of fi in which `xs = [v for v in IT if C]` ... `for w in xs: BODY` (xs bound once, used only as that loop's
+    iterable, the comprehension an identity map) reads `for w in IT: if C[v:=w]: BODY`.  For rules that ask WHICH elements a
+    loop acts on and under which condition; it ignores that the selection is complete before the first BODY runs, so it is not
+    for rules about the order of effects."""
+    key = id(fi.node)
+    if key in _fused_cache:
+        return _fused_cache[key]
+    node = clone(fi.node)
+    changed = False
+    assigns = [n for n in ast.walk(node) if isinstance(n, ast.Assign) and len(n.targets) == 1 and isinstance(n.targets[0], ast.Name)]
+    for a in assigns:
+        comp = a.value
+        if isinstance(comp, ast.Call) and isinstance(comp.func, ast.Name) and comp.func.id in ('list', 'tuple') and \
+                len(comp.args) == 1 and not comp.keywords:
+            comp = comp.args[0]
+        if not (isinstance(comp, (ast.ListComp, ast.GeneratorExp)) and len(comp.generators) == 1 and comp.generators[0].ifs and
+                isinstance(comp.generators[0].target, ast.Name) and isinstance(comp.elt, ast.Name) and
+                comp.elt.id == comp.generators[0].target.id and not comp.generators[0].is_async):
+            continue
+        xs = a.targets[0].id
+        stores = [n for n in ast.walk(node) if isinstance(n, ast.Name) and n.id == xs and not isinstance(n.ctx, ast.Load)]
+        loads = [n for n in ast.walk(node) if isinstance(n, ast.Name) and n.id == xs and isinstance(n.ctx, ast.Load)]
+        loops = [n for n in ast.walk(node) if isinstance(n, ast.For) and isinstance(n.iter, ast.Name) and n.iter.id == xs
+                 and isinstance(n.target, ast.Name)]
+        if len(stores) != 1 or len(loads) != 1 or len(loops) != 1 or loops[0].orelse:
+            continue
+        loop, gen = loops[0], comp.generators[0]
+        v, w = gen.target.id, loop.target.id
+
+        class Ren(ast.NodeTransformer):
+            def visit_Name(self, n):  # noqa: N802
+                return ast.copy_location(ast.Name(id=w, ctx=n.ctx), n) if n.id == v else n
+        conds = [Ren().visit(clone(c)) for c in gen.ifs]
+        test = conds[0] if len(conds) == 1 else ast.BoolOp(op=ast.And(), values=conds)
+        loop.iter = gen.iter
+        loop.body = [ast.copy_location(ast.If(test=test, body=loop.body, orelse=[]), loop)]
+        # drop the selection statement
+        for parent in ast.walk(node):
+            for fld in ('body', 'orelse', 'finalbody'):
+                lst = getattr(parent, fld, None)
+                if isinstance(lst, list) and a in lst:
+                    lst[lst.index(a)] = ast.copy_location(ast.Pass(), a)
+        changed = True
+    if not changed:
+        _fused_cache[key] = fi
+        return fi
+    ast.fix_missing_locations(node)
+    for x in ast.walk(node):
+        for child in ast.iter_child_nodes(x):
+            child._parent = x  # noqa: SLF001
+    node._parent = getattr(fi.node, '_parent', None)  # noqa: SLF001
+    new = type(fi)(fi.qual, fi.module, node, fi.cls)
+    new.expanded_from = fi
+    _fused_cache[key] = new
     return new
 
 
